@@ -75,17 +75,116 @@ let event ev =
   | 'M' | '-' | 'U' -> ()                              (* U: TryAdd / TryInsert / TryUpdate refused: the row stays detached *)
   | _ -> raise (Stuck "unknown-event")
 
+(* ---------------------------------------------------------------- seq: replay on the Row-OBJECT layer (TreiberRows.stepl)
+   The harness keeps its detached rows in a std::vector<Row>; push_back / erase / clear / std::swap are expanded into the
+   Row-class primitives the library really executes (move construction, move assignment = move-construct a temporary +
+   Swap + destroy it, destruction), so that the three members of every Row object can be compared after every event. *)
+open TreiberRows
+let lst = ref linit
+let det : int list ref = ref []          (* object ids of the vector's elements *)
+let next_obj = ref 0
+let free_ids : int list ref = ref []     (* ids of destroyed objects are recycled: keeps the unary nat ids small *)
+let fresh () = match !free_ids with x :: r -> free_ids := r; x | [] -> incr next_obj; !next_obj
+let maxrow = ref 0
+let fired = ref 0
+(* the extracted state keeps its maps as chains of closures (one layer per update); every 64 steps the driver re-tabulates
+   them over the ids in use (rows 0..maxrow, objects 0..next_obj, threads 0..9; everything else still has its initial value) *)
+let compact () =
+  let s = !lst in let b = s.lbase in
+  let tab m f d = let a = Array.init (m + 1) (fun k -> f (n k)) in fun k -> let j = i k in if j <= m then a.(j) else d in
+  let b' = { b with link = tab !maxrow b.link None; status = tab !maxrow b.status Free; gen = tab !maxrow b.gen (n 0);
+                    dpcs = tab 9 b.dpcs Idle } in
+  lst := { lbase = b'; objs = tab !next_obj s.objs { o_live = false; o_raw = None; o_fl = false } }; st := b'
+let firel ll = match stepl !lst ll with
+  | Some s -> lst := s; st := s.lbase; incr fired; if !fired land 63 = 0 then compact ()
+  | None -> raise (Stuck (match ll with LB l -> lname l | LNew _ -> "row-new" | LExtract _ -> "row-extract" | LMoveCtor _ -> "row-movector"
+                                        | LSwap _ -> "row-swap" | LAdd _ -> "row-add" | LDestroy _ -> "row-destroy(null list pointer or buffer not detached)"))
+let ldrain () =
+  firel (LB OExchange);
+  let rec loop k =
+    if k > 100000 then raise (Stuck "drain-loop") else
+    match !lst.lbase.own with
+    | ODrain None -> firel (LB ODone)
+    | ODrain (Some _) -> firel (LB ORead); firel (LB (OFree None)); loop (k + 1)
+    | _ -> raise (Stuck "owner-pc")
+  in loop 0
+(* ~DataRow of object o, run to completion on one of three disposer ids; every third real push has a spurious CAS failure *)
+let destroy_obj o =
+  let holds = (!lst.objs (n o)).o_raw <> None in
+  if holds then incr dcount;
+  let t = n (1 + (!dcount mod 3)) in
+  firel (LDestroy (t, n o));
+  if holds then begin
+    firel (LB (DLoad t)); firel (LB (DLink t));
+    if !dcount mod 3 = 0 then begin firel (LB (DCas (t, true))); firel (LB (DLoad t)); firel (LB (DLink t)) end;
+    firel (LB (DCas (t, false)))
+  end;
+  free_ids := o :: !free_ids
+let move_assign a b = let tmp = fresh () in firel (LMoveCtor (n tmp, n b)); firel (LSwap (n tmp, n a)); destroy_obj tmp
+let push_back_from local = let e = fresh () in firel (LMoveCtor (n e, n local)); det := !det @ [e]; destroy_obj local
+let rec drop k l = match l with [] -> [] | x :: r -> if k = 0 then r else x :: drop (k - 1) r
+let erase k =                              (* std::vector::erase: move-assign the tail down, destroy the last element *)
+  let a = Array.of_list !det in let m = Array.length a in
+  for i = k to m - 2 do move_assign a.(i) a.(i + 1) done;
+  destroy_obj a.(m - 1);
+  det := Array.to_list (Array.sub a 0 (m - 1))
+let slot_of r = let rec go i = function [] -> raise (Stuck "no-object-holds-this-buffer")
+                  | o :: rest -> if (!lst.objs (n o)).o_raw = Some (n r) then i else go (i + 1) rest in go 0 !det
+let std_swap a b = let tmp = fresh () in firel (LMoveCtor (n tmp, n a)); move_assign a b; move_assign b tmp; destroy_obj tmp
+let show_obj o = let ob = !lst.objs (n o) in
+  (match ob.o_raw with None -> "-" | Some r -> string_of_int (i r)) ^ (if ob.o_fl then ":T" else ":0")
+let extra : int option ref = ref None
+let observe_l () =
+  observe () ^ "|ro=" ^ String.concat "," (Stdlib.List.map show_obj (!det @ (match !extra with Some o -> [o] | None -> [])))
+
+let event_l ev =
+  let c = ev.[0] and arg = String.sub ev 1 (String.length ev - 1) in
+  match c with
+  | 'N' -> let r = int_of_string arg in note r; if r > !maxrow then maxrow := r;
+           if !lst.lbase.head <> None then ldrain ();
+           let local = fresh () in firel (LNew (n local, n r, None)); firel (LB (Scribble (n r, Some (n 0))));
+           push_back_from local
+  | 'X' -> let r = int_of_string arg in let local = fresh () in firel (LExtract (n local, n r)); push_back_from local
+  | 'A' -> let k = slot_of (int_of_string arg) in firel (LAdd (n (Stdlib.List.nth !det k))); erase k
+  | 'U' -> ()
+  | 'P' -> (match ids_of arg with         (* TryUpdate accepted: pvDestroyRaw(old); raw = ExtractRaw(row) *)
+            | [old; nw] -> let k = slot_of nw in
+                           firel (LB (ORemove (n old, None))); firel (LAdd (n (Stdlib.List.nth !det k))); erase k
+            | _ -> raise (Stuck "bad-P"))
+  | 'R' -> firel (LB (ORemove (n (int_of_string arg), None)))
+  | 'D' -> erase (slot_of (int_of_string arg))
+  | 'W' -> (match ids_of arg with
+            | [_; k; j] -> move_assign (Stdlib.List.nth !det k) (Stdlib.List.nth !det j)
+            | _ -> raise (Stuck "bad-W"))
+  | 'H' -> erase (int_of_string arg)          (* the moved-from slot is erased: no push *)
+  | 'Y' -> (match ids_of arg with
+            | [k; j] -> let a = Stdlib.List.nth !det k and b = Stdlib.List.nth !det j in
+                        std_swap a b; firel (LSwap (n a, n b)); firel (LSwap (n b, n a))
+            | _ -> raise (Stuck "bad-Y"))
+  | 'O' -> let k = int_of_string arg in let tmp = fresh () in
+           firel (LMoveCtor (n tmp, n (Stdlib.List.nth !det k))); extra := Some tmp
+  | 'M' -> let k = int_of_string arg in
+           (match !extra with
+            | Some tmp -> move_assign (Stdlib.List.nth !det k) tmp; destroy_obj tmp; extra := None
+            | None -> raise (Stuck "M-without-O"))
+  | 'E' -> Stdlib.List.iter destroy_obj !det; det := []           (* vector::clear destroys front to back *)
+  | 'C' -> ldrain (); Stdlib.List.iter (fun r -> firel (LB (ORemove (n r, None)))) (ids_of arg)
+  | 'S' -> firel (LB (Scribble (n (int_of_string arg), Some (n 12345))))
+  | 'Z' -> if !lst.lbase.head <> None then ldrain ()
+  | '-' -> ()
+  | _ -> raise (Stuck "unknown-event")
+
 let same_set a b = Stdlib.List.sort compare a = Stdlib.List.sort compare b
 
 let run_seq evs =
-  st := init; dcount := 0; Hashtbl.reset known;
+  st := init; lst := linit; det := []; next_obj := 0; free_ids := []; maxrow := 0; fired := 0; extra := None; dcount := 0; Hashtbl.reset known;
   let buf = Buffer.create 256 in
   let stuck = ref false in
   Stdlib.List.iter (fun ev ->
     if Buffer.length buf > 0 then Buffer.add_char buf ' ';
     if !stuck then Buffer.add_string buf (ev ^ "|skipped")
     else
-      (try event ev; Buffer.add_string buf (ev ^ observe ())
+      (try event_l ev; Buffer.add_string buf (ev ^ observe_l ())
        with Stuck l -> stuck := true; Buffer.add_string buf (ev ^ "|STUCK@" ^ l))) evs;
   let s = !st in
   let idle = Stdlib.List.for_all (fun t -> s.dpcs (n t) = Idle) [0; 1; 2; 3; 4] in
